@@ -38,6 +38,12 @@ CHECKS = {
  "C19": dict(technique="closed-form oracle by parameter name (= nested python loops) on productmap / vmap_1d / spacemap and the keyword/positional wrappers for generated functions of all parameter kinds",
              text="Held on K generated functions x ordered subsets of mapped names (exhaustive for <= 4 parameters and <= 3 mapped names), shuffled keyword orders, scalar/tuple/dict outputs, misuse -> ValueError.",
              ref="5/C19", note="parameters with defaults are outside the statement and not generated"),
+ "C14": dict(technique="reference-model monitor on get_function_representation with random SpaceInfo / masks / arrays / points (scalar, vmap, jit), direct structural clauses, jax checkify index sanitizer",
+             text="Held on K random spaces x 96 points each (nodes, midpoints, interior, outside linear grids), both indexer constructions, three input prefixes; node reproduction, linearity between nodes and linear continuation checked directly as well.",
+             ref="5/C14", note="trusted: numpy reference interpolation; log grids evaluated inside their range only"),
+ "C20": dict(technique="numpy longdouble log-sum-exp oracle + per-cell law monitors (finite, bounds, shift equivariance, small-scale limit, axis==segment layout) on the real aggregation functions, jax_debug_nans on",
+             text="Held on K random arrays/segmentations/scales (1e-8..1e8, magnitudes to 1e6), eager and jit, x64 and f32.",
+             ref="5/C20", note="scale range bounded so that value/scale is representable"),
 }
 DEFAULT_NA = "check not built yet in this revision of /verif (planned in DESIGN.md section 5)"
 
